@@ -42,4 +42,48 @@ theorem same_result {Bytes Text Obj : Type} (decode : Bytes → Text) (gzip gunz
     (readText decode gunzip (expectedRead k') (materialise decode gzip k' b)).map parse := by
   rw [same_text decode gzip gunzip hz k hk b, same_text decode gzip gunzip hz k' hk' b]
 
+/-! ### writers -/
+
+/-- what a writer leaves behind for a target of an accepted kind when it writes the text `t`: the bytes of a file (behind a
+path or a binary stream) or the characters handed to a caller's text stream -/
+inductive Written (Bytes Text : Type)
+  | fileBytes (b : Bytes)
+  | streamText (t : Text)
+
+/-- `open_text_io_handle_for_writing` followed by the writes: a plain path and a binary stream receive the encoded text, a
+`.gz` path its compressed form, a caller's text stream the text itself -/
+def writeText {Bytes Text : Type} (encode : Text → Bytes) (gzip : Bytes → Bytes) (o : Outcome) (t : Text) : Option (Written Bytes Text) :=
+  match o with
+  | .openPath => some (.fileBytes (encode t))
+  | .openGzPath => some (.fileBytes (gzip (encode t)))
+  | .wrapBinary => some (.fileBytes (encode t))
+  | .passText => some (.streamText t)
+  | .openUrl => none
+  | .reject => none
+
+/-- the content of what was written, read the way the matching reader reads it -/
+def contentOf {Bytes Text : Type} (decode : Bytes → Text) (gunzip : Bytes → Bytes) (k : Kind) : Written Bytes Text → Text
+  | .fileBytes b => if k = .gzPath then decode (gunzip b) else decode b
+  | .streamText t => t
+
+/-- **Writers produce the same content for every accepted kind of target**: whatever the kind - path, `.gz` path, text or
+binary stream (for gzip STREAMS the caller's stream object does the compressing) - the content that lands is the text that
+was written, given that decoding undoes encoding and gunzip undoes gzip. -/
+theorem same_content_written {Bytes Text : Type} (encode : Text → Bytes) (decode : Bytes → Text) (gzip gunzip : Bytes → Bytes)
+    (hc : ∀ t, decode (encode t) = t) (hz : ∀ b, gunzip (gzip b) = b) (k : Kind) (hk : k ≠ .other) (t : Text) :
+    ∃ w, writeText encode gzip (expectedRead k) t = some w ∧ contentOf decode gunzip k w = t := by
+  cases k <;> simp_all [writeText, expectedRead, contentOf]
+
+/-- and what one kind of target received reads back, through any accepted kind of source, as the same object -/
+theorem write_then_read {Bytes Text Obj : Type} (encode : Text → Bytes) (decode : Bytes → Text) (gzip gunzip : Bytes → Bytes)
+    (parse : Text → Obj) (hc : ∀ t, decode (encode t) = t) (hz : ∀ b, gunzip (gzip b) = b) (k k' : Kind) (hk : k ≠ .other)
+    (hk' : k' ≠ .other) (t : Text) :
+    ∃ w, writeText encode gzip (expectedRead k) t = some w ∧
+      (readText decode gunzip (expectedRead k') (materialise decode gzip k' (encode (contentOf decode gunzip k w)))).map parse =
+        some (parse t) := by
+  obtain ⟨w, hw, hcont⟩ := same_content_written encode decode gzip gunzip hc hz k hk t
+  refine ⟨w, hw, ?_⟩
+  rw [hcont, same_text decode gzip gunzip hz k' hk' (encode t), hc]
+  rfl
+
 end Hpv.Props.C16
